@@ -193,6 +193,29 @@ func HarnessCorrupt() {
 		for i := int64(0); i < 4; i++ {
 			zz.PokeFile(path, off+i, byte(nov>>(8*uint(i))))
 		}
+	case 6:
+		zz.Reach("high-water-mark-raised")
+		// the high-water mark of the current meta is raised (checksum recomputed): the pages between the
+		// old and the new mark are below the mark, unreachable and not free - incl. the very last page
+		// below the mark, which no other class ever makes the corrupted one
+		delta := uint64(1 + zz.Choose(2))
+		if im0.cur < 0 || int64(im0.m.hwm+delta)*ps > int64(len(b0)) {
+			return
+		}
+		mo := im0.cur*c.pageSize + 16
+		mb := make([]byte, 64)
+		copy(mb, b0[mo:mo+64])
+		nh := im0.m.hwm + delta
+		for i := 0; i < 8; i++ {
+			mb[40+i] = byte(nh >> (8 * uint(i)))
+		}
+		sum := zzFNV64a(mb[:56])
+		for i := 0; i < 8; i++ {
+			mb[56+i] = byte(sum >> (8 * uint(i)))
+		}
+		for i := 40; i < 64; i++ {
+			zz.PokeFile(path, int64(mo+i), mb[i])
+		}
 	case 4:
 		zz.Reach("freelist-count-changed")
 		if !im0.hasFL {
